@@ -1,6 +1,8 @@
 // fragment: the real Parser struct + its representation invariant (shared by the parser units)
+//@include specs/errcode_simple.rs
 #[derive(Debug)]
 pub struct Error { pub code: ErrorCode }
+pub open spec fn err_ok(e: Error, s: Seq<u8>) -> bool { true }
 
 // `as_str` is `from_utf8_unchecked` (unsafe, outside Verus): assumed to return a view of the same bytes.
 pub uninterp spec fn str_bytes(s: &str) -> Seq<u8>;
